@@ -89,7 +89,7 @@ META("C01",
           "statement is therefore: every head-level step and every post-decode operation per node is safe; their composition "
           "over an input is the loop rule, a meta-argument (A2).",
      trusted=[A1, A2], uncovered=["composition of cbor_load's proved regions over the two loops: loop rule, meta-argument A2; K'' assumed",
-                                  "cbor_describe: not under contract", "cbor_copy of arrays / maps / chunked strings"],
+                                  "cbor_describe: not under contract (only its stack frame, C19)"],
      meta=["tree-level statements by induction over per-node steps (A1)"])
 
 META("C02",
@@ -161,8 +161,8 @@ META("C06",
           "blocks (ghost g_live) shows that everything allocated up to the failure was released.",
      note=COMMON_NOTE + "Also covered: every builder callback under allocation failure (refused leaf/opener/chunk: flag raised, nothing "
           "left allocated, nothing changed), cbor_serialize_alloc for leaves and definite strings (NULL buffer, size 0). "
-          "cbor_copy of composite kinds is covered for tags only. Composition over a whole tree / input is by the steps (A1, A2).",
-     trusted=[A1, A2], uncovered=["cbor_load as a whole under allocation failure (loop not closed)", "cbor_copy of arrays/maps/chunked strings",
+          "cbor_copy of composite kinds is covered through its extracted regions (refused container, refused member copy, refused growth: everything made so far released once). Composition over a whole tree / input is by the steps (A1, A2).",
+     trusted=[A1, A2], uncovered=["cbor_load as a whole under allocation failure (loop rule over its proved regions: A2)",
                                   "cbor_serialize_alloc of composite items"],
      meta=[])
 
@@ -196,13 +196,23 @@ META("C10",
      note=COMMON_NOTE + "Half floats are covered from the bit-pattern side in C15.", trusted=["A7: spec/head.h"], uncovered=[], meta=[])
 
 META("C11",
-     text="cbor_copy per node kind so far: integers (each width, both signs), floats/simple values (each width), definite byte and "
-          "text strings, tags: the result is a fresh node (is_fresh: shares no node or buffer with the source) with reference count "
-          "one, same type/width/value/length/bytes/tag number; the source node's fields are unchanged and every transient reference "
-          "taken on a child is given back (ghost counters).",
-     note=COMMON_NOTE + "Arrays, maps and chunked strings (loop contracts + twins) are planned but not in this revision; 'serializes to "
-          "the same bytes' follows from shape equality and C03 (meta).",
-     trusted=[A1], uncovered=["cbor_copy of arrays, maps, chunked strings"], meta=["tree induction (A1)"])
+     text="cbor_copy for every node kind. Leaf kinds on the real function: integers (each width, both signs), floats/simple values "
+          "(each width), definite byte and text strings (incl. the bodies of cbor_build_bytestring / cbor_build_stringn: fresh "
+          "buffer of exactly the length, same bytes at an arbitrary index), tags: the result is a fresh node (shares no node or "
+          "buffer with the source) with reference count one and the same type/width/value/length/bytes/tag number. Composite "
+          "kinds (arrays, maps, chunked byte/text strings) as verbatim regions of cbor_copy extracted mechanically on every run "
+          "(vlib/extract.py): pre-region (fresh empty container of the same flavour, definite ones allocated for exactly the "
+          "source's count, or NULL with nothing left), loop condition (exactly the source's member count), loop body (exactly "
+          "member i is copied once through the induction-hypothesis twin and attached at position i; the copy is its only owner; "
+          "earlier members untouched; on failure the partial copy and the member copy are released exactly once), post-region. "
+          "Everywhere: the source node is unchanged and every transient reference taken on a child is given back.",
+     note=COMMON_NOTE + "goto-instrument runs out of memory applying loop contracts inside cbor_copy, hence the region extraction; the "
+          "for-loop rule over the proved regions is a meta-argument (A2); children by structural induction (A1, twin "
+          "cbor_copy__child). In the map loop body cbor_map_add is represented by the storage-free part of its contract. "
+          "'serializes to the same bytes' follows from shape equality and C03 (meta). Failed obligations in this layer are "
+          "replayed by a native sweep (replay/copy_oracle.c: 328k decoded trees copied, compared, released, every allocation refused).",
+     trusted=[A1, A2], uncovered=["for-loop rule over the extracted regions of cbor_copy (A2)", "cbor_build_string (strlen)"],
+     meta=["tree induction (A1)", "loop rule (A2)"])
 
 META("C12",
      text="Containers against a list view (size, element at an arbitrary ghost index): definite push/add accept iff size < capacity and "
